@@ -15,4 +15,4 @@ pub mod stmt_ref;
 pub mod translit;
 pub mod stmt_inv;
 pub mod props;
-pub mod fuzzrep;
+pub mod fuzzdec;
